@@ -333,6 +333,11 @@ func (fv *FuncVerifier) eval(st *State, e ast.Expr) Val {
 			return Val{T: "(- (- " + x.T + ") 1)", Ty: t}
 		case token.AND:
 			return fv.evalAddr(st, e.X, t)
+		case token.ARROW:
+			// channel receive: the value is arbitrary; what can be checked is the lock discipline around it
+			fv.eval(st, e.X)
+			fv.chanOp(st, fv.exprText(e))
+			return fv.havocVal(st, "recv", t)
 		}
 	case *ast.BinaryExpr:
 		return fv.evalBinary(st, e, t)
@@ -816,6 +821,26 @@ func (fv *FuncVerifier) arrayAsSlice(st *State, x ast.Expr, au *types.Array, xt 
 		fv.note("slicing a non-local array copies it into a fresh backing store (writes through such a slice are not modelled): " + fv.exprText(x))
 	}
 	return Val{T: mkSlice(r, "0", n, n), Ty: st2}
+}
+
+// chanOp: a (possibly blocking) channel operation. With "flag nolockchan <lock>" the operation must not run while
+// that lock is held -- its counterpart runs under the lock and would wait for ever. Channel contents are not modelled.
+func (fv *FuncVerifier) chanOp(st *State, text string) {
+	lp := ""
+	if fv.contract != nil {
+		lp = fv.contract.Flags["nolockchan"]
+	}
+	if lp == "" {
+		if fv.contract != nil && fv.contract.Flags["chanops"] != "" {
+			// "flag chanops abstract": channel operations are accepted as effect-free blocking points
+			fv.note("channel operations are blocking points without effect on modelled memory (values received are arbitrary)")
+			return
+		}
+		fv.unsupported("channel operation " + text)
+		return
+	}
+	fv.note("channel operations are blocking points without effect on modelled memory (values received are arbitrary)")
+	fv.oblige(st, "lock", "channel operation "+text+" while "+lp+" is held", "(= "+fv.lockTerm(st, lp)+" 0)")
 }
 
 type arrayWB struct {
